@@ -108,6 +108,8 @@ def check_kernels(pid, work, log):
         stages.append(("RangeMap.v", translate3.generate, "TieRangeMap.v"))
     if spec.get("builder"):
         stages.append(("BuilderGen.v", translate2.generate_builder, "TieBuilder.v"))
+    if spec.get("ctors"):
+        stages.append(("Ctors.v", translate2.generate_ctors, "TieCtors.v"))
     files, names = [], []
     for (gfile, genfn, tie) in stages:
         try:
